@@ -3,7 +3,7 @@ import random, json, os
 from . import _scn
 from .. import gen, oracles as O
 
-EDITS = ["flip", "flip_first", "flip_last", "insert", "delete", "truncate", "empty", "append", "remove", "rmchain"]
+EDITS = ["flip", "flip_first", "flip_last", "insert", "delete", "truncate", "empty", "append", "cr_insert", "crlf", "bom", "trailing_space", "case", "remove", "rmchain"]
 COMMANDS = ["create", "create_sf", "verify", "verifydh", "diff", "info", "infosf", "flatten"]
 
 
